@@ -88,10 +88,17 @@ def make_any(frontend, framing, fc, L, reads):
     return anyb
 
 
-def make_framed(frontend, framing, fc, blen):
-    """well-framed request whose PDU body is ANY blen bytes (internally inconsistent byte counts / quantities included)"""
+def make_framed(frontend, framing, fc, blen, fix=()):
+    """well-framed request whose PDU body is ANY blen bytes (internally inconsistent byte counts / quantities included);
+    fix = ((index, value) | (index, "<=", value), ...): body bytes that select a dictionary-dispatched sub-function
+    (or bound a length the decoder slices with) are fixed per obligation - the engine would enumerate them anyway"""
     def framed(hdr: bytes, b: bytes, st: bytes) -> bool:
         assume(len(hdr) == 3 and len(b) == blen and len(st) == 8)
+        for f in fix:
+            if len(f) == 2:
+                assume(b[f[0]] == f[1])
+            else:
+                assume(b[f[0]] <= f[2])
         unit = hdr[2]
         if framing != "tcp":
             assume(unit != 0)
@@ -110,7 +117,9 @@ def make_framed(frontend, framing, fc, blen):
             explain("%s escaped the front-end: %s", type(r.escaped).__name__, r.escaped)
             return False
         after = list(slave.store["h"].values)
-        if regfile.verdict(fc, b, (0, list(regs)), True) == 0:
+        if fc not in (3, 6, 16, 22, 23):
+            exp = list(regs)             # not a holding-register write: the registers stay as they are
+        elif regfile.verdict(fc, b, (0, list(regs)), True) == 0:
             exp = regfile.model(fc, b, (0, list(regs)), True)[1]
         else:
             exp = list(regs)             # a request that must be rejected changes nothing
@@ -158,8 +167,29 @@ def obligations(tier):
     framed = [("sync-tcp", "tcp", 23, 13), ("asyncio-udp", "tcp", 16, 9), ("twisted-tcp", "tcp", 23, 13), ("sync-serial", "rtu", 16, 9)]
     if tier != "quick":
         framed += [(fe, "tcp", fc, bl) for fe in ("sync-udp", "asyncio-tcp", "twisted-udp") for fc, bl in ((23, 13), (16, 9), (22, 6))]
-    for fe, fr, fc, bl in framed:
-        out.append(Obl("framed.%s.%s.fc%d.body%d" % (fe, fr, fc, bl), make_framed(fe, fr, fc, bl), timeout=T,
+    # every function code of the server's decoder table (and one unassigned code) with an arbitrary body
+    # (body lengths per function code: the fixed-format decoders reject any other length at once)
+    sweep_fcs = {1: (4,), 2: (4,), 4: (4,), 5: (4,), 7: (0, 2), 8: (6,), 11: (0,), 12: (0,), 15: (6, 7), 17: (0,),
+                 20: (8, 15), 24: (2,), 0x55: (4,)}
+    framed = [f + ((),) for f in framed]
+    for fe in (("sync-tcp",) if tier == "quick" else ("sync-tcp", "twisted-tcp", "asyncio-udp")):
+        framed += [(fe, "tcp", fc, bl, ()) for fc in sorted(sweep_fcs) for bl in sweep_fcs[fc]]
+        # diagnostics: sub-function fixed per obligation (dictionary dispatch), data word symbolic
+        subs = (0, 1, 4, 10, 20, 21, 0xFFFF) if tier == "quick" else tuple(range(0, 22)) + (0xFFFF,)
+        framed += [(fe, "tcp", 8, 4, ((0, sf // 256), (1, sf % 256))) for sf in subs]
+        # MEI: type 0x0E fixed (read code and object id symbolic), and one other type
+        # (read code 4 looks the object id up in a dictionary: ids bounded there, symbolic for the range reads)
+        oid = ((2, "<=", 8),) if tier == "quick" else ()
+        framed += [(fe, "tcp", 43, 3, ((0, 14), (1, "<=", 3)) + oid), (fe, "tcp", 43, 3, ((0, 13), (1, "<=", 3)) + oid),
+                   (fe, "tcp", 43, 3, ((0, 14), (1, 4), (2, "<=", 8)))]
+        # write file record: the record-length field the decoder slices with is bounded, everything else (byte count,
+        # reference type, file and record numbers, data) is symbolic
+        framed += [(fe, "tcp", 21, 10, ((6, 0), (7, "<=", 2)))]
+        if tier != "quick":
+            framed += [(fe, "tcp", 21, 19, ((6, 0), (7, "<=", 2), (15, 0), (16, "<=", 2)))]
+    for fe, fr, fc, bl, fix in framed:
+        tag = "".join(".b%d%s%d" % (f[0], "le" if len(f) == 3 else "=", f[-1]) for f in fix)
+        out.append(Obl("framed.%s.%s.fc%d.body%d%s" % (fe, fr, fc, bl, tag), make_framed(fe, fr, fc, bl, fix), timeout=T,
                        contracts=contracts[fr], lemmas=lem[fr], findings=("KF-write-registers-short-data-c12",) if False else (),
                        bounds="%s front-end, %s framing: a correctly framed request with function code %d whose %d body bytes are arbitrary (inconsistent quantity / byte count included); 4 symbolic registers; then a probe" % (fe, fr, fc, bl)))
     # inputs shorter than an MBAP header (the socket framer's header-less path)
